@@ -409,6 +409,33 @@ def generate(tier, seed):
         for i in range(3, n + 1):
             spec.append((r.randint(1, i - 1), r.choice(["pin", "slider", "weld", "universal"]), r.random() < 0.3, r.choice("itg"), r.choice("itg")))
         cfgs.append(g.config(spec, 1, 1, branched=True))
+    # lone particles (a childless forward Translation on Ground with identity frames has its own node type) at every place in
+    # the numbering, next to mobilizers whose q and u counts differ, so that q and u offsets of the particle differ
+    for _ in range(24 if tier == "quick" else 300):
+        others = [(0, r.choice(["ball", "free", "lineori", "freeline", "ball", "free", "pin", "bushing"]), r.random() < 0.3, r.choice("itg"), r.choice("itg")) for _ in range(r.choice([1, 2, 2]))]
+        if r.random() < 0.4:
+            others.append((1, r.choice(["pin", "slider", "universal"]), False, r.choice("itg"), r.choice("itg")))
+        at = r.randint(0, len(others))
+        spec = []
+        for i, o in enumerate(others[:at]):
+            spec.append(o)
+        spec.append((0, "translation", False, "i", "i"))
+        for o in others[at:]:
+            spec.append((o[0] + 1 if o[0] >= 1 and False else o[0], o[1], o[2], o[3], o[4]))
+        # parents refer to positions in `others`; a child of others[0] must follow it and keep pointing at it after the insertion
+        fixed = []
+        for i, t in enumerate(spec):
+            if t[1] != "translation" and t[0] == 1:
+                p0 = spec.index(others[0]) + 1
+                if p0 > i:
+                    t = (0,) + t[1:]
+                else:
+                    t = (p0,) + t[1:]
+            fixed.append(t)
+        if sum(NU[t[1]] for t in fixed) > 12:
+            continue
+        dyn = r.random() < 0.5
+        cfgs.append(g.config(fixed, dyn, 1 if dyn else 2))
     # random trees
     nrand = 150 if tier == "quick" else 2500
     for _ in range(nrand):
@@ -594,10 +621,11 @@ def compare(cfg, want, got):
         chk("C04", "station-jacobian-bias", [t["a"] for t in w["taskA0"]], [t["as"] for t in got["taskA0"]])
     # ---- force elements (C38: documented laws and parameter changes taking effect; C12: power against potential energy)
     if cfg["felems"] and "forces" in got:
-        for tag, what in (("forces", "force-law"), ("forces2", "force-law-after-parameter-change"), ("forces3", "force-law-after-a-u-only-change")):
+        for tag, what in (("forces", "force-law"), ("forces2", "force-law-after-parameter-change"), ("forces3", "force-law-after-a-u-only-change"), ("forces4", "force-law-after-a-q-only-change")):
             kinds = "+".join(sorted(set(e["type"] for e in cfg["felems"])))
             FE = cfg["felems"] if tag == "forces" else cfg["felems2"]
-            uu_ = cfg["u2"] if tag == "forces3" else cfg["u"]
+            uu_ = cfg["u2"] if tag in ("forces3", "forces4") else cfg["u"]
+            qq_ = cfg["q2"] if tag == "forces4" else cfg["q"]
             # interaction elements: finish the spec's exact ingredients with the square root, add them to the spec's totals
             nb_ = len(cfg["desc"])
             tpgot = {t["k"]: t for t in got[tag]["tp"]}
@@ -610,7 +638,7 @@ def compare(cfg, want, got):
                         res.append(("C38", "interaction-element-missing", json.dumps(e)))
                         continue
                     b = e["b"]
-                    qv = [(x["k"] * math.pi / 2 + x["m"] * math.atan2(4, 3)) if i < 3 else float(x["k"]) for i, x in enumerate(cfg["q"][b - 1])]
+                    qv = [(x["k"] * math.pi / 2 + x["m"] * math.atan2(4, 3)) if i < 3 else float(x["k"]) for i, x in enumerate(qq_[b - 1])]
                     # the bushing measures its angles from the rotation: they come back in (-pi, pi], middle one in [-pi/2, pi/2]
                     if abs(math.cos(qv[1])) > 1e-9 and math.cos(qv[1]) > 0:
                         qv = [math.atan2(math.sin(a), math.cos(a)) for a in qv[:3]] + qv[3:]
@@ -650,6 +678,9 @@ def compare(cfg, want, got):
                     act = [(d, pt) for d, pt in zip(e["pts"], w[tag]["cable"][k]) if d["on"]]
                     segs = [[b - a for a, b in zip(p1[1]["p"], p2[1]["p"])] for p1, p2 in zip(act, act[1:])]
                     lens = [math.sqrt(sum(x * x for x in sg)) for sg in segs]
+                    if min(lens + [1.0]) < 1e-9:       # coincident points (can happen at the second configuration): direction undefined
+                        w[tag]["skip_totals"] = True
+                        continue
                     dirs = [[x / l_ for x in sg] for sg, l_ in zip(segs, lens)]
                     L = sum(lens)
                     Ldot = sum(sum(dd * (vb - va) for dd, va, vb in zip(dr, p1[1]["v"], p2[1]["v"])) for dr, p1, p2 in zip(dirs, act, act[1:]))
@@ -672,6 +703,9 @@ def compare(cfg, want, got):
                 else:
                     tp = w[tag]["twopt"][k]
                     r = math.sqrt(sum(x * x for x in tp["p"]))
+                    if r < 1e-9:                        # coincident points (can happen at the second configuration): direction undefined
+                        w[tag]["skip_totals"] = True
+                        continue
                     d = [x / r for x in tp["p"]]
                     f = e["c"] * (r - e["x0"]) if e["type"] == "tpls" else e["c"] * tp["pv"] / r if e["type"] == "tpld" else -e["c"]
                     F1 = [f * x for x in d]
@@ -741,6 +775,14 @@ def compare(cfg, want, got):
         small("C07", "multiplyByG-agrees-with-G", got["errG"], gsc * 10)
         small("C07", "multiplyByGTranspose-agrees-with-G", got["errGt"], gsc * 10)
         small("C07", "constraint-forces-act-along-G-transpose", got["errCF"], gsc * 10)
+        if nu and "udotU2" in got and full_row_rank(Gs):
+            # the SAME State after a u-only change: whatever forces act, the accelerations must satisfy the acceleration-level
+            # constraint equations at the NEW speeds (spec's exact G and bias)
+            ud2 = got["udotU2"]
+            res_u = [w["cons"][k]["aerr0U2"] + sum(Gs[r][j] * ud2[j] for j in range(nu)) for r, k in enumerate(order)]
+            asc = max([1.0] + [abs(v) for v in flat(Gs)] + [abs(v) for v in ud2] + [abs(w["cons"][k]["aerr0U2"]) for k in order])
+            if max([0.0] + [abs(v) for v in res_u]) > 1e-7 * asc * asc:
+                res.append(("C08", "accelerations-violate-the-constraints-after-a-u-only-change", "G udot + bias(u2) = %s" % res_u))
         if cfg["dyn"] and nu and not got.get("cdynExc") and "cudot" in got and full_row_rank(Gs):      # C08 speaks about consistent sets
             ud_s, lam = got["cudot"], got["clambda"]
             # acceleration-level constraint equations with the spec's exact G and bias
